@@ -494,6 +494,30 @@ def toFunc (b : Bld) (results : List Ty) : Func :=
 /-- `LowerToSSA` -/
 def lowerCF (f : Function) : Func := toFunc (build f) f.results
 
+/-! ## well-formedness with the front end's alias entries
+
+`findValue` aliases a temporary value that has NO definition (it is neither a block parameter nor an instruction
+result) to the unique definition it found.  The certificate `SsaPass.computeCert` gives ranks and types to defined
+values only, so `SsaPass.wellFormed` rejects such a table (`alRank`, `alTy`).  `certA` extends the computed
+certificate: an aliased value without a definition gets the type of its target and a rank just above it.  The
+pass theorems hold for every certificate (`ssa_redundantPhiElim_sound`, `ssa_nopElim_sound`,
+`ssa_passes_keep_wellFormed`), so `wellFormedA` is as good a hypothesis as `wellFormed`
+(`Wz.C01.frontcf_passes_sound_of_wellFormedA`). -/
+
+def certA (g : Func) : Cert :=
+  let c := computeCert g
+  let defs := g.allDefs
+  { c with
+    rank := fun v => match aliasGet g.alias v with
+      | some t => if v ∈ defs then c.rank v else c.rank t + 1
+      | none => c.rank v,
+    cty := fun v => match aliasGet g.alias v with
+      | some t => if v ∈ defs then c.cty v else c.cty t
+      | none => c.cty v }
+
+def wellFormedA (f : Func) : Bool :=
+  decide (WF (certA (deadBlockElim f)) (deadBlockElim f))
+
 /-! ## `ssaBuilder.Format()` -/
 
 def blkName (t : BlockId) : String := if t = retBlk then "blk_ret" else s!"blk{t}"
